@@ -10,6 +10,7 @@ from .parser import Parser
 from .compiler import Compiler
 from .vm import VM
 from .values import (
+    from_python,
     UNDEFINED,
     NULL,
     JSValue,
@@ -229,7 +230,7 @@ class Context:
                     return UNDEFINED
                 if isinstance(getter, JSFunction):
                     return self._call_function(getter, [], obj)
-                return getter()
+                return from_python(getter())
             return obj.get_own(key)
 
         def keys_fn(*args):
